@@ -22,7 +22,7 @@ pub enum Op {
     /// source slice length
     CopyFromSlice(usize),
     CloneFromSlice(usize),
-    /// source kind (0 owned, 1 strided view, 2 view_mut), source size
+    /// source kind (0 owned, 1 strided view, 2 view_mut, 3 view built over a longer slice), source size
     CopyFromToodee(u8, usize, usize),
     CloneFromToodee(u8, usize, usize),
     CopyWithin(Coordinate, Coordinate, Coordinate),
@@ -70,6 +70,12 @@ pub fn with_src<R>(kind: u8, c: usize, r: usize, f: impl FnOnce(&dyn SrcDyn) -> 
             let t = TooDee::from_vec(c, r, src_slice(c * r));
             f(&SrcOwned(t))
         }
+        3 => {
+            // a TooDeeView built directly over a slice that is LONGER than c*r (three surplus cells)
+            let mut long = src_slice(c * r);
+            long.extend([Kt::new(1, 61001), Kt::new(2, 61002), Kt::new(3, 61003)]);
+            f(&SrcLong(long, c, r))
+        }
         _ => {
             // window (1,1)-(1+c,1+r) of a (c+2) x (r+2) parent whose window cells carry src_slice values
             let (pc, pr) = (c + 2, r + 2);
@@ -83,6 +89,25 @@ pub fn with_src<R>(kind: u8, c: usize, r: usize, f: impl FnOnce(&dyn SrcDyn) -> 
             f(&SrcWin(p, c, r, kind))
         }
     }
+}
+pub struct SrcLong(pub Vec<Kt>, pub usize, pub usize);
+macro_rules! src_impl_long {
+    ($name:ident, $d:ty) => {
+        fn $name(&self, d: &mut $d, clone: bool) {
+            let v = toodee::TooDeeView::new(self.1, self.2, &self.0);
+            if clone {
+                d.clone_from_toodee(&v)
+            } else {
+                d.copy_from_toodee(&v)
+            }
+        }
+    };
+}
+impl SrcDyn for SrcLong {
+    src_impl_long!(copy_into_owned, TooDee<Kt>);
+    src_impl_long!(copy_into_view, toodee::TooDeeViewMut<'_, Kt>);
+    src_impl_long!(copy_into_fo, super::recv::ForeignOwned<Kt>);
+    src_impl_long!(copy_into_fw, super::recv::ForeignWindow<'_, Kt>);
 }
 pub struct SrcOwned(pub TooDee<Kt>);
 pub struct SrcWin(pub TooDee<Kt>, pub usize, pub usize, pub u8);
@@ -454,7 +479,7 @@ pub fn ops_for(c: usize, r: usize, cw_max: usize) -> Vec<Op> {
         v.push(Op::CopyFromSlice(len));
         v.push(Op::CloneFromSlice(len));
     }
-    for k in 0..3u8 {
+    for k in 0..4u8 {
         v.push(Op::CopyFromToodee(k, c, r));
         v.push(Op::CloneFromToodee(k, c, r));
         v.push(Op::CopyFromToodee(k, r, c));
@@ -521,6 +546,14 @@ pub fn apply_op_unit<R: TooDeeOpsMut<()> + CopyOps<()>>(x: &mut R, op: &Op) {
                     x.clone_from_toodee(&src)
                 } else {
                     x.copy_from_toodee(&src)
+                }
+            } else if *k == 3 {
+                let long = vec![(); *c * *r + 3];
+                let v = toodee::TooDeeView::new(*c, *r, &long);
+                if clone {
+                    x.clone_from_toodee(&v)
+                } else {
+                    x.copy_from_toodee(&v)
                 }
             } else {
                 let p = TooDee::<()>::init(*c + 2, *r + 2, ());
